@@ -31,7 +31,8 @@ PROPS = {
         runs=std(),
         rule=("case = (kernel group, N, block of residues p mod 2N | special class list | sampled block | wrapper "
               "call sequence); distinct by descriptor hash; non-trivial when N >= 2 (maps differ from identity "
-              "for some p in the block)"),
+              "for some p in the block)"
+             " Later additions have their own keys in by_case_class (DESIGN.md 5.1): call sequences and object life cycles, multi-threaded cases (also run under ThreadSanitizer), sweeps over every value of a size parameter, placement / alignment / data-structure modes drawn from the case hash."),
         require={"all": ["rot_p_checked", "auto_p_checked", "wrapper_calls", "wrapper_dispatch:generic", "inplace_unequal_size_calls", "cross_dimension_sequences", "concurrent_map_calls", "auto_branch:cycles",
                          "auto_branch:mirror", "auto_branch:negate", "auto_branch:negamirror",
                          "auto_branch:identity"]},
@@ -47,7 +48,8 @@ PROPS = {
         runs=std(),
         rule=("case = one call of a normalisation entry point (entry, N, k, res_size, a_size, strides, operand family, "
               "in-place flag, range triple, dispatch) or one exhaustive window / primitive batch; distinct by descriptor "
-              "hash; non-trivial when at least one inter-limb carry is non-zero (digit differs from the isolated digit)"),
+              "hash; non-trivial when at least one inter-limb carry is non-zero (digit differs from the isolated digit)"
+             " Later additions have their own keys in by_case_class (DESIGN.md 5.1): call sequences and object life cycles, multi-threaded cases (also run under ThreadSanitizer), sweeps over every value of a size parameter, placement / alignment / data-structure modes drawn from the case hash."),
         require={"all": ["concurrent_entry_calls", "coefficients_checked", "primitive_values_checked", "exhaustive_limb_combinations",
                          "cases_with_interlimb_carry"]},
         assumptions=["digit oracle: 1024-bit two's-complement integers, centred remainders from the least significant end",
@@ -58,7 +60,8 @@ PROPS = {
         runs=std(),
         rule=("case = one call (operation, level module/kernel, module type, dispatch, N, res/a/b limb counts, stride "
               "choices, extra-limb flag); distinct by descriptor hash; non-trivial when res_size >= 1 and at least one "
-              "source limb is used"),
+              "source limb is used"
+             " Later additions have their own keys in by_case_class (DESIGN.md 5.1): call sequences and object life cycles, multi-threaded cases (also run under ThreadSanitizer), sweeps over every value of a size parameter, placement / alignment / data-structure modes drawn from the case hash."),
         require={"all": ["limbs_compared", "dispatch:native", "dispatch:generic", "dispatch:kernel-avx", "dispatch:kernel-ref", "aliased_calls", "interleaved_view_calls", "concurrent_vector_calls", "same_input_calls"]},
         assumptions=["per-limb definition evaluated by the harness (missing limb = 0)",
                      "stride padding and guard bands are ASan-poisoned and carry canaries; inputs are byte-snapshotted", ASAN_NOTE],
@@ -68,7 +71,8 @@ PROPS = {
         runs=std(),
         rule=("case = one product through one FFT64 path (small single product | svp_prepare+svp_apply_dft+idft | "
               "...+idft_tmp_a) for (N, operand family, dispatch, res/a limb counts, stride, repetition); distinct by "
-              "descriptor hash; non-trivial when both operands are non-zero, N >= 4 and at least one row is produced"),
+              "descriptor hash; non-trivial when both operands are non-zero, N >= 4 and at least one row is produced"
+             " Later additions have their own keys in by_case_class (DESIGN.md 5.1): call sequences and object life cycles, multi-threaded cases (also run under ThreadSanitizer), sweeps over every value of a size parameter, placement / alignment / data-structure modes drawn from the case hash."),
         require={"all": ["concurrent_entry_calls", "products_checked", "exact_regime_products", "budget_regime_products", "frontier_products", "lifecycle_products", "idft_variant:idft(res==a_dft),short-dft",
                          "zero_rows_checked", "oracle_selfcheck_ok"]},
         assumptions=["exact oracle: schoolbook with 128-bit accumulators, or an oracle-side NTT modulo a 62-bit prime "
@@ -80,7 +84,8 @@ PROPS = {
         runs=std(),
         rule=("case = one (N, nrows, ncols, a_size, res_size, a stride, dispatch, operand magnitude class) shape: "
               "prepare + both apply entry points + inverse DFT; distinct by descriptor hash; non-trivial when "
-              "min(nrows,a_size) >= 1 and min(ncols,res_size) >= 1 (zero-size classes are counted separately)"),
+              "min(nrows,a_size) >= 1 and min(ncols,res_size) >= 1 (zero-size classes are counted separately)"
+             " Later additions have their own keys in by_case_class (DESIGN.md 5.1): call sequences and object life cycles, multi-threaded cases (also run under ThreadSanitizer), sweeps over every value of a size parameter, placement / alignment / data-structure modes drawn from the case hash."),
         require={"all": ["shapes_checked", "columns_checked", "zero_columns_checked", "exact_regime_columns", "zero_polynomial_matrix_entries", "concurrent_prepare_apply_calls", "scaled_input_limbs_cases",
                          "layout:column-major(N<8)", "layout:blocked", "layout:blocked(one block)"]},
         assumptions=["exact oracle per (row, column) product summed in 128-bit integers; budget = sum of the C01 "
@@ -94,7 +99,8 @@ PROPS = {
         runs=std(),
         rule=("case = one product-kernel call (kernel, ref/avx2, ell, operand families of x and y) or one batch of "
               "conversions / block copies (nn, repetition); distinct by descriptor hash; non-trivial when ell >= 1 or "
-              "the conversion input is non-empty"),
+              "the conversion input is non-empty"
+             " Later additions have their own keys in by_case_class (DESIGN.md 5.1): call sequences and object life cycles, multi-threaded cases (also run under ThreadSanitizer), sweeps over every value of a size parameter, placement / alignment / data-structure modes drawn from the case hash."),
         require={"all": ["product_lanes_checked", "conversion_values_checked", "blocks_checked", "concurrent_kernel_calls", "exhaustive_ell_values"]},
         assumptions=["oracle: operands reduced modulo each prime, products accumulated with 128-bit arithmetic; CRT "
                      "constants recomputed by the oracle", ASAN_NOTE],
@@ -104,7 +110,8 @@ PROPS = {
         runs=std(),
         rule=("case = (n, lane family, table set, repetition) transform batch (round trip + linearity + convolution), "
               "an evaluation-map check, or one module-level dft/idft call (N, a/dft/res limb counts, stride, variant); "
-              "distinct by descriptor hash; non-trivial when n >= 2 and the input is not constant zero"),
+              "distinct by descriptor hash; non-trivial when n >= 2 and the input is not constant zero"
+             " Later additions have their own keys in by_case_class (DESIGN.md 5.1): call sequences and object life cycles, multi-threaded cases (also run under ThreadSanitizer), sweeps over every value of a size parameter, placement / alignment / data-structure modes drawn from the case hash."),
         require={"all": ["roundtrips_checked", "linearity_checked", "convolutions_checked", "horner_evaluations", "spectrum_limbs_checked", "concurrently_built_tables",
                          "module_roundtrip_limbs"]},
         assumptions=["oracle works on the residues of the 64-bit lanes modulo each prime; convolution by schoolbook "
@@ -121,7 +128,8 @@ PROPS = {
             dict(cfg="plain", tag="q29", defs="-DSPQLIOS_Q120_USE_29_BIT_PRIMES", parts=16, tier="quick", info=True)]),
         rule=("case = one product-kernel call on worst-case operands (kernel, ref/avx2, ell, x/y family) or one traced "
               "transform batch (n, lane family, repetition: ntt, intt of its output, intt and ntt on the raw lanes); "
-              "distinct by descriptor hash; non-trivial when ell >= 1 / n >= 2 with at least one lane >= 2^63"),
+              "distinct by descriptor hash; non-trivial when ell >= 1 / n >= 2 with at least one lane >= 2^63"
+             " Later additions have their own keys in by_case_class (DESIGN.md 5.1): call sequences and object life cycles, multi-threaded cases (also run under ThreadSanitizer), sweeps over every value of a size parameter, placement / alignment / data-structure modes drawn from the case hash."),
         require={"all": ["product_lanes_checked", "max_ell_products", "h2_stage_events", "h2_traced_transforms", "concurrently_built_tables", "concurrent_kernel_calls", "exhaustive_ell_values"]},
         assumptions=["hook H2 reports every stage of the real schedule; the shadow re-executes it in 128-bit arithmetic "
                      "from the library's own metadata and must reproduce the real lanes bit for bit",
@@ -136,7 +144,8 @@ PROPS = {
                         wrapper=["valgrind", "-q", "--error-exitcode=97", "--errors-for-leak-kinds=none"], timeout=3600)]),
         rule=("case = (layout reim|cplx, fft|ifft, implementation, m, input family, repetition); each case runs the "
               "transform twice on a guarded exact-size buffer; distinct by descriptor hash; non-trivial when m >= 2 "
-              "and the input is non-zero"),
+              "and the input is non-zero"
+             " Later additions have their own keys in by_case_class (DESIGN.md 5.1): call sequences and object life cycles, multi-threaded cases (also run under ThreadSanitizer), sweeps over every value of a size parameter, placement / alignment / data-structure modes drawn from the case hash."),
         require={"all": ["concurrent_entry_calls", "transforms_checked", "horner_validations", "impl:dispatch-native", "impl:dispatch-generic",
                          "impl:ref-direct", "impl:avx2-direct", "impl:leaf-avx", "impl:leaf-ref", "impl:bfs16-ref", "impl:builtin-buffers", "impl:naive", "tables_built_concurrently", "cold_process_constructions", "table_lifecycle_checks", "simple_sequence_calls",
                          "impl:rec16-ref"]},
@@ -155,7 +164,8 @@ PROPS = {
         rule=("case = one conversion call (conversion, variant table-native|table-generic|ref|accelerated kernel, m, "
               "divisor 2^j, log2overhead, repetition) on 2m generated values (exponent sweep, domain boundary, near-ties, "
               "quarter points, integers, tiny, random); distinct by descriptor hash; every case is non-trivial (each "
-              "batch contains non-integers and boundary values)"),
+              "batch contains non-integers and boundary values)"
+             " Later additions have their own keys in by_case_class (DESIGN.md 5.1): call sequences and object life cycles, multi-threaded cases (also run under ThreadSanitizer), sweeps over every value of a size parameter, placement / alignment / data-structure modes drawn from the case hash."),
         require={"all": ["values_checked", "rounding_exercised", "conv:reim_from_znx64", "conv:reim_to_znx64",
                          "conv:reim_to_tnx", "conv:cplx_from_znx32", "conv:cplx_from_tnx32", "conv:cplx_to_tnx32",
                          "exhaustive_int32:cplx_from_znx32_ref", "exhaustive_int32:cplx_from_znx32_avx2_fma", "exhaustive_int32:cplx_from_tnx32_ref", "exhaustive_int32:cplx_from_tnx32_avx2_fma"]},
@@ -169,7 +179,8 @@ PROPS = {
         rule=("case = one kernel batch: extract/save (m, ref|avx, nrows, row stride, contiguous|strided) over all or "
               "sampled block indices; layout round trip (m, variant); dot product (1|2 columns, ref|avx2, nrows, value "
               "family); pointwise mul/addmul (layout, variant, m, family, aliasing); convolution (sizea, sizeb) over all "
-              "windows; distinct by descriptor hash; non-trivial when at least one row / term / operand is non-empty"),
+              "windows; distinct by descriptor hash; non-trivial when at least one row / term / operand is non-empty"
+             " Later additions have their own keys in by_case_class (DESIGN.md 5.1): call sequences and object life cycles, multi-threaded cases (also run under ThreadSanitizer), sweeps over every value of a size parameter, placement / alignment / data-structure modes drawn from the case hash."),
         require={"all": ["concurrent_entry_calls", "blocks_checked", "layout_roundtrips", "dot_products", "pointwise_vectors",
                          "convolution_windows", "fftvec:cplx:avx512", "fftvec:cplx:sse", "fftvec:reim4:fma", "simple_api_calls"]},
         assumptions=["complex-arithmetic oracle in long double with the rounding budgets of DESIGN Appendix A",
@@ -181,7 +192,8 @@ PROPS = {
         runs=std(),
         rule=("case = one aliasing pattern exercised once (operation+pattern, N, module type, dispatch, res/aliased/other "
               "limb counts, strides, p class, repetition): the out-of-place call on a copy and the aliased call; "
-              "distinct by descriptor hash; non-trivial when the aliased operand and the output have >= 1 limb"),
+              "distinct by descriptor hash; non-trivial when the aliased operand and the output have >= 1 limb"
+             " Later additions have their own keys in by_case_class (DESIGN.md 5.1): call sequences and object life cycles, multi-threaded cases (also run under ThreadSanitizer), sweeps over every value of a size parameter, placement / alignment / data-structure modes drawn from the case hash."),
         require={"all": ["aliased_pairs", "alias:vec_znx_idft(res==a_dft)", "alias:vec_znx_add(res==b)",
                          "alias:vec_znx_big_sub_small_a(res==b)", "alias:reim_fftvec(r==a==b)", "alias:cplx_fftvec(r==b)", "concurrent_aliased_calls"]},
         assumptions=["the aliased buffer is the very same pointer with the same stride; it holds live (stale) data beyond "
@@ -198,7 +210,8 @@ PROPS = {
         rule=("case = one catalogue entry point executed twice with the same arguments and two different pre-fills of "
               "its output and scratch buffers (entry point, N, dispatch, seed -> shape, strides, operands), or one "
               "new/delete cycle batch; distinct by descriptor hash; non-trivial when at least one buffer is non-empty "
-              "(zero-size classes are counted separately in shape:*)"),
+              "(zero-size classes are counted separately in shape:*)"
+             " Later additions have their own keys in by_case_class (DESIGN.md 5.1): call sequences and object life cycles, multi-threaded cases (also run under ThreadSanitizer), sweeps over every value of a size parameter, placement / alignment / data-structure modes drawn from the case hash."),
         require={"all": ["instrumented_calls", "scratch_bytes_exact", "object_cycles", "leak_check_rounds", "builtin_buffer_bytes_checked",
                          "memcheck_definedness_checks"]},
         assumptions=["every buffer is allocated at exactly the documented size (bytes_of_*, *_tmp_bytes) between "
@@ -213,7 +226,8 @@ PROPS = {
         rule=("case = one concurrent workload in a short process (phase cold module+table API | warmed-up *_simple API, "
               "two dimensions, T threads, rounds, repetition): every thread runs a random permutation of all entry "
               "points of the phase on private data against the shared modules/tables; distinct by descriptor hash; "
-              "non-trivial when at least one pair of calls from different threads overlapped in time"),
+              "non-trivial when at least one pair of calls from different threads overlapped in time"
+             " Later additions have their own keys in by_case_class (DESIGN.md 5.1): call sequences and object life cycles, multi-threaded cases (also run under ThreadSanitizer), sweeps over every value of a size parameter, placement / alignment / data-structure modes drawn from the case hash."),
         require={"all": ["concurrent_calls", "overlapping_call_pairs", "tsan_instrumented_calls", "ro_protected_bytes",
                          "schedule:free", "schedule:pinned-2cpu", "schedule:yield", "concurrent_constructions", "first_use_cases", "concurrently_allocated_objects", "simple_vs_table_twin_checks", "shared_objects_dispatch:generic", "shared_objects_dispatch:native",
                          "entry_points_observed_concurrently", "overlap_pairs"]},
@@ -228,7 +242,8 @@ PROPS = {
         rule=("case = one random program of 300 catalogue calls over a working set of 48 (environment, function, argument "
               "seed) triples drawn from 12 dimensions, both dispatch configurations and every entry point, one third of "
               "them on the functions with hidden caches; distinct by descriptor hash (program number); non-trivial when "
-              "the program contains at least one equal-argument repeat separated by other calls"),
+              "the program contains at least one equal-argument repeat separated by other calls"
+             " Later additions have their own keys in by_case_class (DESIGN.md 5.1): call sequences and object life cycles, multi-threaded cases (also run under ThreadSanitizer), sweeps over every value of a size parameter, placement / alignment / data-structure modes drawn from the case hash."),
         require={"all": ["calls", "repeated_argument_pairs_checked", "simple_vs_table_twin_checks", "fresh_process_comparisons", "concurrent_repetitions", "table_buffer_histories",
                          "cache_parameter_transitions", "function_parameter_states"]},
         assumptions=["output hashes (64-bit) stand for the output bytes", "arguments derive from the seed only; the "
@@ -242,7 +257,8 @@ PROPS = {
         rule=("case = one batch: a fresh environment (modules + every table kind) for (N, dispatch) and every catalogue "
               "entry point called with several argument seeds, each call with byte snapshots of all its source buffers "
               "(padding included) and a table hash after each entry point; distinct by descriptor hash; non-trivial when "
-              "at least one call with a non-empty source ran"),
+              "at least one call with a non-empty source ran"
+             " Later additions have their own keys in by_case_class (DESIGN.md 5.1): call sequences and object life cycles, multi-threaded cases (also run under ThreadSanitizer), sweeps over every value of a size parameter, placement / alignment / data-structure modes drawn from the case hash."),
         require={"all": ["calls_snapshotted", "source_bytes_compared", "table_bytes_compared", "ro_protected_bytes", "inplace_tail_checks", "role_rotation_calls"]},
         assumptions=["sources deliberately overwritten by contract are declared INOUT in the catalogue (vec_znx_idft_tmp_a, "
                      "in-place transforms, accumulating products) and are not snapshotted",
@@ -255,7 +271,8 @@ PROPS = {
         runs=std(),
         rule=("case = one pair comparison (accelerated catalogue entry ~ its reference twin, N, argument seed) or one "
               "dispatch comparison (public entry point under generic-C and accelerated dispatch, N, seed); both members "
-              "receive identical arguments; distinct by descriptor hash; non-trivial when the compared output is non-empty"),
+              "receive identical arguments; distinct by descriptor hash; non-trivial when the compared output is non-empty"
+             " Later additions have their own keys in by_case_class (DESIGN.md 5.1): call sequences and object life cycles, multi-threaded cases (also run under ThreadSanitizer), sweeps over every value of a size parameter, placement / alignment / data-structure modes drawn from the case hash."),
         require={"all": ["pair_comparisons", "dispatch_comparisons", "dispatch_config:native", "dispatch_config:avx2-only", "dispatch_config:fma-only", "concurrent_pair_comparisons", "class:bitwise", "class:modq", "class:float-budget",
                          "class:rounded-int64", "pair:cplx_fftvec_addmul_avx512", "pair:cplx_fftvec_addmul_sse",
                          "pair:reim_fft16_avx_fma", "pair:fft64_vmp_apply_dft_to_dft_avx"]},
@@ -271,7 +288,8 @@ PROPS = {
               "over typed values ZNX / DFT / BIG / PPOL / PMAT; every integer-valued result is compared with the exact "
               "interpreter as soon as it is produced; distinct by descriptor hash; non-trivial when the program contains "
               "a DFT-space product and a coefficient-space operation on an inverse-DFT result (FFT64) or a dft/idft round "
-              "trip (NTT120)"),
+              "trip (NTT120)"
+             " Later additions have their own keys in by_case_class (DESIGN.md 5.1): call sequences and object life cycles, multi-threaded cases (also run under ThreadSanitizer), sweeps over every value of a size parameter, placement / alignment / data-structure modes drawn from the case hash."),
         require={"all": ["concurrent_entry_calls", "programs", "operations_executed", "op:vmp_apply_dft_to_dft", "op:svp_apply_dft",
                          "op:vec_znx_idft_tmp_a", "op:vec_znx_big_range_normalize_base2k",
                          "edge:svp_apply_dft->vmp_apply_dft_to_dft", "edge:vmp_apply_dft_to_dft->vec_znx_idft",
